@@ -476,7 +476,10 @@ func runWorker(ck *Check, tier string, seed uint64, flavour string, cases []int,
 	cmd.Env = append(os.Environ(),
 		"GORACE=halt_on_error=0 exitcode=0 log_path="+filepath.Join(workdir, tag+".race"),
 		"ASAN_OPTIONS=halt_on_error=1:abort_on_error=1:detect_leaks=0",
-		"GOTRACEBACK=all")
+		"GOTRACEBACK=all",
+		// the workers' local time zone is not UTC (UTC-5, no daylight saving): whatever the code under
+		// test does with time.Local shows against the UTC times the harness sets and decodes
+		"TZ=Etc/GMT+5")
 	var diag diagT
 	if err := cmd.Start(); err != nil {
 		lf.Close()
